@@ -361,6 +361,20 @@ pub fn execute_c06(plan: &Plan) -> Outcome {
                     let (w, how) = wrong_creds(&c, &mut g, how_n);
                     (how.to_owned(), RefClient::start(&w, &mut g, unix_now(), &addr, b"attack-payload-1", &ClientOpts::default()).1)
                 }
+                3 if i % 12 == 3 => {
+                    // a valid handshake with its credential proof shortened: the first k bytes of the Trojan hash line
+                    // (k = 0 is an empty line), a shorter salt, a shorter auth id - the rest of the request intact
+                    let full = RefClient::start(&c, &mut g, unix_now(), &addr, b"attack-payload-3", &ClientOpts::default()).1;
+                    let proof = match c.proto {
+                        Proto::Trojan => 56,
+                        Proto::Vmess => 16,
+                        Proto::Shadowsocks => key_len(&c.cipher),
+                    };
+                    let keep = g.below(proof as u64) as usize;
+                    let mut w = full[..keep].to_vec();
+                    w.extend_from_slice(&full[proof.min(full.len())..]);
+                    ("shortened-credential-proof".into(), w)
+                }
                 3 => ("other-protocol".into(), other_protocol_handshake(&c, &mut g)),
                 4 => {
                     // a valid handshake cut short at a drawn point, then silence
@@ -501,6 +515,31 @@ async fn user_separation_udp(c: &Creds, g: &mut Gen, findings: &mut Vec<(String,
     tokio::time::sleep(Duration::from_millis(50)).await;
     let _ = a.send_to(&mk(&ka, sid_a, 3, b"from-user-a-2"), server_addr()).await;
     tokio::time::sleep(Duration::from_millis(100)).await;
+    // B claims to be A: on a session id B has just used under its own identity (so that whatever the server remembers
+    // about that session was made with B's key), and on a fresh one, B sends a datagram whose identity header names A
+    // while the body is sealed with B's key. Nothing of it may reach the target.
+    let target_got = || world::with(|w| w.udp_sends.iter().filter(|s| s.node == rt::NODE_SERVER && s.to == target_sock()).count());
+    for (round, reuse) in [(0u64, true), (1, false), (2, true)] {
+        let sid_b: u64 = g.next();
+        if reuse {
+            let ts = if round == 2 { unix_now() - 3600 } else { unix_now() };
+            let body = refimpl::ss2022::UdpBody { session_id: sid_b, packet_id: 1, stream_type: 0, timestamp: ts, client_session_id: None, padding: 0, addr: addr.clone(), payload: b"from-user-b-own-session".to_vec() };
+            let _ = b.send_to(&refimpl::ss2022::udp_packet_aes(&c.cipher, &[c.psk.clone(), kb.clone()], &body), server_addr()).await;
+            tokio::time::sleep(Duration::from_millis(30)).await;
+        }
+        let before = target_got();
+        let body = refimpl::ss2022::UdpBody { session_id: sid_b, packet_id: 2, stream_type: 0, timestamp: unix_now(), client_session_id: None, padding: 0, addr: addr.clone(), payload: b"sealed-by-b-claiming-to-be-a".to_vec() };
+        let forged = refimpl::ss2022::udp_packet_aes_mismatched(&c.cipher, &[c.psk.clone(), ka.clone()], &kb, &body);
+        let _ = b.send_to(&forged, server_addr()).await;
+        tokio::time::sleep(Duration::from_millis(50)).await;
+        if target_got() != before {
+            findings.push((
+                "attributed-to-another-user".into(),
+                format!("a datagram whose identity header names user A but whose body is sealed with user B's key was relayed to the target (session id {} by B: {reuse}, round {round})", if reuse { "used before" } else { "not used before" }),
+            ));
+            return;
+        }
+    }
     let mut buf = vec![0u8; 65536];
     for (sock, mine, other, who) in [(&a, &ka, &kb, "A"), (&b, &kb, &ka, "B")] {
         while let Ok(Ok((n, _))) = tokio::time::timeout(Duration::from_millis(5), sock.recv_from(&mut buf)).await {
